@@ -196,6 +196,19 @@ def run(ctx):
                             ctx.violation("concurrent protect on a shared cache fails", {"calls": ops, "completion_order": order}, results.get(i), "done")
                     # model: the same begin/finish schedule as atomic steps
                     acases.append(async_model_line(sim, ops, begun, fin_order, blobs, results))
+                    # direct oracle (second sentence of C10): every position asked for above has now been obtained, so
+                    # asking for any of them again on the same cache must be answered without the DC
+                    if all(str(results.get(i)).startswith("done ") for i in range(k)):
+                        with sim.world():
+                            for op in ops:
+                                if op[0] != "U":
+                                    continue
+                                n0 = sim.dc_calls
+                                out = sim.unprotect(blobs[op[1:]][0])
+                                if sim.dc_calls != n0 or out != "done " + hx(blobs[op[1:]][1]):
+                                    ctx.violation("DC contacted again for a position already covered (after concurrent calls completed)",
+                                                  {"calls": ops, "completion_order": order, "then": op}, f"{sim.dc_calls - n0} GetKey call(s), {out[:40]}", "0 calls, the plaintext")
+                                    break
     for i in range(0, len(acases), 500):
         ctx.compare_batch(acases[i:i + 500], nontrivial=lambda line, impl: True)
 
@@ -262,7 +275,16 @@ def replay(ctx, payload):
     if "history" in v:
         run_history(c2, v["history"], blobs)
     else:
-        run_async_gather(c2, v["calls"], tuple(v["completion_order"]), blobs, False)
+        sim, results, begun, fin_order = run_async_gather(c2, v["calls"], tuple(v["completion_order"]), blobs, False)
+        for i, op in enumerate(v["calls"]):
+            print("  call", i, op, "->", str(results.get(i))[:60])
+        if "then" in v:
+            with sim.world():
+                n0 = sim.dc_calls
+                out = sim.unprotect(blobs[v["then"][1:]][0])
+                print("  then", v["then"], "->", out[:60], "GetKey calls:", sim.dc_calls - n0)
+                if sim.dc_calls != n0:
+                    return False
     for x in c2.violations:
         print(" ", x["what"], x["observed"])
     return not c2.violations
